@@ -13,6 +13,7 @@ import (
 	"github.com/form3tech-oss/f1/v2/internal/progress"
 	"github.com/form3tech-oss/f1/v2/internal/trigger/api"
 	"github.com/form3tech-oss/f1/v2/internal/ui"
+	"github.com/form3tech-oss/f1/v2/internal/verifsim/simrt"
 	"github.com/form3tech-oss/f1/v2/internal/workers"
 	"github.com/form3tech-oss/f1/v2/pkg/f1/scenarios"
 	f1t "github.com/form3tech-oss/f1/v2/pkg/f1/testing"
@@ -36,6 +37,15 @@ func h5Main(env *Env, c *H5Cfg, sh *h5Shared) {
 		v := rates.Rate(t)
 		sh.logOuter(env, t, v)
 		return v
+	}
+	if c.PureTicks > 0 {
+		// long horizon: the distribution wrappers do not look at the clock, so millions of consecutive
+		// sub-ticks are evaluated back to back (no ticker, no scheduling points) and checked cycle by cycle
+		sh.trigStartNs = env.Sim.Now()
+		simrt.Atomic(func() { h5PureLoop(env, c, sh, rates.Rate) })
+		sh.trigEndNs = env.Sim.Now()
+		sh.finished = true
+		return
 	}
 	if c.Direct {
 		// large rates: the pool would spend the whole step budget executing (or dropping) requests, so the
